@@ -125,6 +125,8 @@ def _components(repo, ci, dim):
 def run(ctx):
     repo = ctx.repo
     _wrapper_dimensions(ctx, repo)
+    from . import c04 as _c04
+    _c04.phased_fsim_kernel_rule(ctx, 'C03.h')
     ctx.decided += [
         'C03.a eigen-component tables are complete orthogonal Hermitian projectors of the right dimension with real half-turns',
         'C03.b sum_k exp(i pi theta_k) P_k equals the textbook matrix of the family (big-endian), incl. qutrit X/Z',
